@@ -44,6 +44,31 @@ def run(tier, seed):
             rep.add_violation(v, sysm.describe())
             nv += 1
     rep.add_part(name="boundary probes: fogs with unexplored prefixes of 31..300 nibbles", evaluations=evals, violations=nv)
+    # serialize() writes a python list of bytes literals: every 4-byte window over the bytes that matter to that syntax
+    import itertools
+    from trie.fog import HexaryTrieFog
+    from ..ref import mpt
+    from ..hexsys import V
+    syntax = b", b'\"\\[]x0n\n"
+    evals = nv = 0
+    for win in itertools.product(sorted(set(syntax)), repeat=4):
+        body = bytes(win)
+        a = (1,) + mpt.nib(body)           # odd length: flag nibble + path
+        b = mpt.nib(body) + (2, 12)        # even length
+        evals += 1
+        try:
+            f = HexaryTrieFog().explore((), [a, b])
+            g = HexaryTrieFog.deserialize(f.serialize())
+            ok = (g == f)
+        except Exception as e:  # noqa
+            ok = False
+        if not ok:
+            nv += 1
+            if nv <= 2:
+                v = V("C11", "serialize_roundtrip", "deserialize(serialize(fog)) != fog for a prefix whose packed bytes look like python syntax", prefix=a)
+                v["hist"] = [("init", 0), ("explore", (), (a, b), True)]
+                rep.add_violation(v, sysm.describe())
+    rep.add_part(name="serialisation probes: prefixes packing to every 4-byte window over the bytes , space b ' \" \\ [ ] x 0 n newline", evaluations=evals, violations=nv)
     return rep
 
 
